@@ -46,6 +46,9 @@ CONSTANTS Peers,            \* remote peers
           GraftNeedsStream, \* handleGraft requires gs.peers[p]    (FALSE = as found, DESIGN D6: P_C16_Api fails)
           DrainAfterClose,  \* rpcQueue.Pop keeps handing out the backlog of a CLOSED queue until it is empty
                             \* (FALSE = the code: Pop on a closed queue fails even when items remain; TRUE: P_C16_Api fails)
+          PurgeNeedsRtPeer, \* the router's OnClosedOutboundStream purges mesh / fanout only for peers it knows (gs.peers)
+                            \* (FALSE = the code: it purges unconditionally; TRUE: a peer that is in the mesh by D6's path
+                            \*  while its stream is still being opened survives BlacklistPeer: P_C16_ApiHadQueue fails)
           ApiSkipsIfPresent \* blacklistPeer case does nothing when Add reports the peer as already present
                             \* (FALSE = the code; TRUE: P_C16_Api fails for direct Add followed by BlacklistPeer)
 
@@ -70,7 +73,8 @@ VARIABLES
     inj,      \* messages delivered / forwarded while forwarder or author was blacklisted
     exempt,   \* exempt[p]: the writer had popped one RPC when BlacklistPeer(p) was processed
     wrote,    \* wrote[p] : RPCs written to p since BlacklistPeer(p)
-    apiBad,   \* peers for which the state right after the blacklistPeer case was wrong
+    apiBad,   \* <<p, tag>>: the state right after the blacklistPeer case for p was wrong; tag "hadq" when p had a
+              \*           registered queue (the clean-up ran), tag "any" always
     refuseBad \* peers whose stream completed while blacklisted and was not refused
 
 vars == <<net, pend, dead, q, qlen, strm, wq, popped, topic, mesh, fan, rtpeer, bl, blapi, stage, ever,
@@ -88,7 +92,7 @@ TypeOK ==
     /\ bl \in [Peers -> BOOLEAN] /\ blapi \in [Peers -> BOOLEAN]
     /\ stage \in [Msgs -> Stages] /\ ever \in [Peers -> BOOLEAN]
     /\ inj \subseteq Msgs /\ exempt \in [Peers -> BOOLEAN] /\ wrote \in [Peers -> 0..(MaxQ + 1)]
-    /\ apiBad \subseteq Peers /\ refuseBad \subseteq Peers
+    /\ apiBad \subseteq (Peers \X {"any", "hadq"}) /\ refuseBad \subseteq Peers
 
 F(v) == [p \in Peers |-> v]
 
@@ -166,13 +170,18 @@ ResetOutbound(p) ==
     /\ qlen' = [qlen EXCEPT ![p] = IF q[p] = "none" THEN 0 ELSE @]
     /\ UNCHANGED <<net, pend, q, topic, mesh, fan, rtpeer, bl, blapi, stage, ever, Mon>>
 
+\* rt.OnClosedOutboundStream(p) removes p from every mesh and fanout set, whether or not the router ever saw
+\* an outbound stream to p (a peer can be in the mesh by its own GRAFT before that, D6)
+Purges(p) == PurgeNeedsRtPeer => rtpeer[p]
+
 \* handleDeadPeers
 HandleDead(p) ==
     /\ dead[p]
     /\ dead' = [dead EXCEPT ![p] = FALSE]
     /\ IF q[p] = "none" THEN UNCHANGED <<q, qlen, strm, wq, topic, mesh, fan, rtpeer>>
        ELSE /\ topic' = [topic EXCEPT ![p] = FALSE]
-            /\ mesh' = [mesh EXCEPT ![p] = FALSE] /\ fan' = [fan EXCEPT ![p] = FALSE]
+            /\ mesh' = [mesh EXCEPT ![p] = IF Purges(p) THEN FALSE ELSE @]
+            /\ fan' = [fan EXCEPT ![p] = IF Purges(p) THEN FALSE ELSE @]
             /\ rtpeer' = [rtpeer EXCEPT ![p] = FALSE]
             /\ IF net[p] /\ strm[p] = "none"
                  THEN \* still connected: respawn the writer with a fresh queue
@@ -251,17 +260,18 @@ Blacklist(p, how) ==
                         /\ qlen' = [qlen EXCEPT ![p] = IF strm[p] = "up" THEN @ ELSE 0]
                         /\ wq' = [wq EXCEPT ![p] = IF ApiCloses /\ @ = "open" THEN "closed" ELSE @]
                         /\ topic' = [topic EXCEPT ![p] = IF ApiClears THEN FALSE ELSE @]
-                        /\ mesh' = [mesh EXCEPT ![p] = IF ApiNotifies THEN FALSE ELSE @]
-                        /\ fan' = [fan EXCEPT ![p] = IF ApiNotifies THEN FALSE ELSE @]
+                        /\ mesh' = [mesh EXCEPT ![p] = IF ApiNotifies /\ Purges(p) THEN FALSE ELSE @]
+                        /\ fan' = [fan EXCEPT ![p] = IF ApiNotifies /\ Purges(p) THEN FALSE ELSE @]
                         /\ rtpeer' = [rtpeer EXCEPT ![p] = IF ApiNotifies THEN FALSE ELSE @]
                    ELSE UNCHANGED <<q, qlen, wq, topic, mesh, fan, rtpeer>>
               \* the "additionally" clauses, evaluated on the state right after the case
               \* ("peer lists" = ListPeers = p.peers /\ p.topics[t]; topic state learnt from the inbound stream
               \*  of a peer that has no queue is never listed)
-              /\ apiBad' = IF \/ q'[p] # "none" \/ wq'[p] = "open"
-                              \/ (q[p] = "open" /\ topic'[p])
-                              \/ mesh'[p] \/ fan'[p]
-                             THEN apiBad \cup {p} ELSE apiBad
+              /\ LET bad == \/ q'[p] # "none" \/ wq'[p] = "open"
+                             \/ (q[p] = "open" /\ topic'[p])
+                             \/ mesh'[p] \/ fan'[p]
+                 IN apiBad' = apiBad \cup (IF bad THEN {<<p, "any">>} ELSE {})
+                                     \cup (IF bad /\ q[p] = "open" THEN {<<p, "hadq">>} ELSE {})
     /\ UNCHANGED <<net, pend, dead, strm, popped, stage, ever, inj, refuseBad>>
 
 Expire(p) ==
@@ -350,6 +360,14 @@ P_C16_Api ==
     /\ apiBad = {}
     /\ \A p \in Peers : blapi[p] => wrote[p] <= (IF exempt[p] THEN 1 ELSE 0)
 
+\* the part of P_C16_Api that D6 (GRAFT accepted from a peer without outbound queue) does not break: when the
+\* blacklisted peer HAD a registered queue, the clean-up ran and must have removed it from mesh and fanout as well
+P_C16_ApiHadQueue == \A x \in apiBad : x[2] # "hadq"
+
+\* fanout sets only ever hold peers the router has an outbound stream for (getPeers filters on gs.peers): the
+\* situation "in a fanout set while the stream is still being opened" does not exist
+FanoutNeedsStream == \A p \in Peers : fan[p] => rtpeer[p]
+
 \* while the API blacklisting is in force there is no open outbound queue for p
 P_C16_ApiQueue == \A p \in Peers : blapi[p] => q[p] = "none"
 
@@ -361,6 +379,8 @@ Pos(p) ==
       [] strm[p] = "up" /\ mesh[p]                       -> "mesh"
       [] strm[p] = "up" /\ fan[p]                        -> "fanout"
       [] strm[p] = "up"                                  -> "conn"
+      [] strm[p] = "opening" /\ q[p] = "open" /\ net[p] /\ ~ever[p] /\ mesh[p] -> "pending-mesh"    \* only with D6
+      [] strm[p] = "opening" /\ q[p] = "open" /\ net[p] /\ ever[p] /\ mesh[p]  -> "repending-mesh"  \* only with D6
       [] strm[p] = "opening" /\ q[p] = "open" /\ net[p] /\ ~ever[p] -> "pending"
       [] strm[p] = "opening" /\ q[p] = "open" /\ net[p] /\ ever[p]  -> "repending"
       [] net[p] /\ q[p] = "none" /\ strm[p] = "none" /\ ~pend[p] /\ mesh[p] /\ ~ever[p] -> "nostream"  \* only with D6
